@@ -392,8 +392,8 @@ pub fn run(args: &Args, report: &mut Report) {
     report.rule = "distinct canonical inputs (JSON file lists / path strings); non-trivial = a dotted key, nesting, an array or more than one file (JSON), any special piece (`~ $ { ./ /` or non-ASCII) for paths".into();
     let mut rng = Rng::new(args.seed ^ if c32 { 0x32 } else { 0x31 });
     let thorough = args.thorough();
-    let n_sets = if thorough { 150_000 } else { 5_000 };
-    let n_paths = if thorough { 20_000 } else { 1_200 };
+    let n_sets = if thorough { if c32 { 80_000 } else { 40_000 } } else { 5_000 };
+    let n_paths = if thorough { 12_000 } else { 1_200 };
     let n_schema = if thorough { 60_000 } else { 3_000 };
     let n_fresh = if thorough { 120 } else { 20 };
 
@@ -472,22 +472,17 @@ pub fn run(args: &Args, report: &mut Report) {
             }
         }
         // C31 oracle: the whole pipeline never panics; C32 oracle: same input -> same output
-        match impl_full(vec![], Some(files.clone()), WS) {
-            Err(m) => {
-                if !c32 {
-                    report.oracle_failure(json!({"input": {"files": files}, "what": format!("load_configs/pre_process_emmyrc panicked: {m}"), "class": Value::Null}));
-                }
+        if c32 {
+            // same files, same order -> same serialized Emmyrc (no path expansion here: that is C31's)
+            let load = |files: &Vec<Value>| {
+                let f = files.clone();
+                vh_common::catch(move || serde_json::to_string(&load_configs(vec![], Some(f))).unwrap_or_default()).unwrap_or_else(|m| format!("panic {m}"))
+            };
+            if load(files) != load(files) {
+                report.oracle_failure(json!({"input": {"files": files}, "what": "two loads of the same files in one process differ", "class": Value::Null}));
             }
-            Ok(first) => {
-                if c32 {
-                    let again = impl_full(vec![], Some(files.clone()), WS).unwrap_or_else(|m| format!("panic {m}"));
-                    let raw1 = impl_load_raw(files).unwrap_or_default();
-                    let raw2 = impl_load_raw(files).unwrap_or_default();
-                    if again != first || raw1 != raw2 {
-                        report.oracle_failure(json!({"input": {"files": files}, "what": "two loads of the same files in one process differ", "class": Value::Null}));
-                    }
-                }
-            }
+        } else if let Err(m) = impl_full(vec![], Some(files.clone()), WS) {
+            report.oracle_failure(json!({"input": {"files": files}, "what": format!("load_configs/pre_process_emmyrc panicked: {m}"), "class": Value::Null}));
         }
     }
     // ---- tie + oracle: path strings (C31) ----
